@@ -1445,7 +1445,7 @@ package analysis
 //@   ensures noOp(s, method, path) ==> len(result) == 0
 //@   ensures !noOp(s, method, path) ==> forall k in dom(result) :: fromLists(s, docPaths(s)[path].Parameters, opAtM(docPaths(s)[path], strings.ToUpper(method)).Parameters, k, result[k])
 
-//@ lemma opAtMTable [C14, C15]: forall pi spec.PathItem :: opAtM(pi, "GET") == pi.Get && opAtM(pi, "PUT") == pi.Put && opAtM(pi, "POST") == pi.Post && opAtM(pi, "PATCH") == pi.Patch && opAtM(pi, "DELETE") == pi.Delete && opAtM(pi, "HEAD") == pi.Head && opAtM(pi, "OPTIONS") == pi.Options
+//@ lemma opAtMTable [C14, C15]: forall pi spec.PathItem {pi.PathItemProps} :: opAtM(pi, "GET") == pi.Get && opAtM(pi, "PUT") == pi.Put && opAtM(pi, "POST") == pi.Post && opAtM(pi, "PATCH") == pi.Patch && opAtM(pi, "DELETE") == pi.Delete && opAtM(pi, "HEAD") == pi.Head && opAtM(pi, "OPTIONS") == pi.Options
 
 //@ fun idUnknown(s *Spec, id string) bool = forall p in dom(docPaths(s)) :: forall M string :: opAtM(docPaths(s)[p], M) != nil ==> opAtM(docPaths(s)[p], M).ID != id
 
